@@ -23,19 +23,20 @@ def main():
     names = ['sub', 'mod#sub', 'mod#typ%member', 'mod#typ%a%b']
     keys = ['sub', 'mod#sub', 'mod', 'typ', 'typ%member', 'mod#typ', 'typ%a', 'other']
     cases, bad = 0, None
-    for parents in (False, True):
+    patterns = ['su*', 'mod#*', '*%member', 'typ%*', 'mod#typ%?', 'oth*']
+    for parents, patt in ((False, False), (True, False), (False, True), (True, True)):
         for n in names:
-            for k in keys:
+            for k in keys + (patterns if patt else []):
                 ref = None
                 for nv in variants(n):
                     for kv in variants(k):
-                        r = tuple(x.lower() for x in SchedulerConfig.match_item_keys(nv, [kv], False, parents))
+                        r = tuple(x.lower() for x in SchedulerConfig.match_item_keys(nv, [kv], patt, parents))
                         cases += 1
                         if ref is None:
                             ref = (r, nv, kv)
                         elif r != ref[0] and bad is None:
                             bad = {'function': 'match_item_keys', 'name_a': ref[1], 'key_a': ref[2], 'name_b': nv,
-                                   'key_b': kv, 'match_item_parents': parents, 'run_a': list(ref[0]), 'run_b': list(r)}
+                                   'key_b': kv, 'match_item_parents': parents, 'use_pattern_matching': patt, 'run_a': list(ref[0]), 'run_b': list(r)}
     print(json.dumps({'cases': cases, 'violation': bad is not None, 'cex': bad}))
 
 
